@@ -154,7 +154,7 @@ def generate_mpo(I, terms=None, opts_svd=None, N=None, f_map=None) -> MpsMpoOBC:
     f_ordered = lambda s0, s1: s0 <= s1
     signs, sitess, opss, op_patterns = [], [], [], []
     for term in terms:
-        if any(site < 0 or site > N or not isinstance(site, numbers.Integral) for site in term.positions):
+        if any(site < 0 or site >= N or not isinstance(site, numbers.Integral) for site in term.positions):
             raise YastnError("Hterm: positions should be in 0, 1, ..., N-1.")
         if any(op.s != unique_ops[Iind[site]].s for op, site in zip(term.operators, term.positions)):
             raise YastnError("Hterm: operator should be a Tensor with ndim=2 and signature matching identity I at the corresponding site.")
